@@ -1,33 +1,43 @@
 ----------------------------- MODULE MCConnMgr -----------------------------
-(* Model-checking configurations of ConnMgr.tla: scenario sets per tier.   *)
+(* Model-checking configurations of ConnMgr.tla: scenario sets per tier,   *)
+(* the fairness assumption and the liveness statements.                    *)
 EXTENDS ConnMgr
 
 Sc(t, g, man, nl, il, ic, st, wt) ==
   [target |-> t, gna |-> g, manual |-> man, ru |-> 2, cap |-> 5,
    nlist |-> nl, inlim |-> il, incap |-> ic, stop |-> st, wait |-> wt]
 
-\* outbound side only ------------------------------------------------------
-\* automatic requests only (no Connect): target 1 and 2
-AutoOnly   == { Sc(t, TRUE, <<>>, 0, FALSE, 0, TRUE, TRUE) : t \in {1, 2} }
-\* one persistent request made through Connect next to one automatic one
-OnePerm    == { Sc(1, TRUE, <<TRUE>>, 0, FALSE, 0, TRUE, TRUE) }
-\* one non-persistent request made through Connect next to one automatic one
-OneManual  == { Sc(1, TRUE, <<FALSE>>, 0, FALSE, 0, TRUE, TRUE) }
-\* no GetNewAddress: only what the user connects
-NoGna      == { Sc(1, FALSE, man, 0, FALSE, 0, TRUE, TRUE) : man \in {<<TRUE>>, <<FALSE>>, <<TRUE, FALSE>>} }
-\* inbound side only -------------------------------------------------------
-Inbound    == { Sc(1, FALSE, <<>>, nl, il, ic, TRUE, TRUE) :
-                  nl \in {1, 2}, il \in BOOLEAN, ic \in {0, 1} }
-
-ScAuto1    == { Sc(1, TRUE, <<>>, 0, FALSE, 0, TRUE, TRUE) }
+\* outbound side -----------------------------------------------------------
+ScAuto1    == { Sc(1, TRUE, <<>>, 0, FALSE, 0, TRUE, TRUE) }                 \* automatic requests only
 ScAuto2    == { Sc(2, TRUE, <<>>, 0, FALSE, 0, TRUE, TRUE) }
+OnePerm    == { Sc(1, TRUE, <<TRUE>>, 0, FALSE, 0, TRUE, TRUE) }             \* + one persistent request through Connect
+OneManual  == { Sc(1, TRUE, <<FALSE>>, 0, FALSE, 0, TRUE, TRUE) }            \* + one non-persistent request through Connect
+PermOnly   == { Sc(1, FALSE, <<TRUE>>, 0, FALSE, 0, TRUE, TRUE) }                \* no GetNewAddress: one persistent request
+NoGna1     == { Sc(1, FALSE, man, 0, FALSE, 0, TRUE, TRUE) : man \in {<<TRUE>>, <<FALSE>>} }
+NoGna2     == { Sc(1, FALSE, <<TRUE, FALSE>>, 0, FALSE, 0, TRUE, TRUE) }
+\* inbound side ------------------------------------------------------------
+Inbound      == { Sc(1, FALSE, <<>>, nl, il, ic, TRUE, TRUE) : nl \in {1, 2}, il \in BOOLEAN, ic \in {0, 1, 2} }
+InboundQuick == { Sc(1, FALSE, <<>>, 1, il, 1, TRUE, TRUE) : il \in BOOLEAN }
+\* every action of the specification (vacuity audit) -------------------------
+Cover      == { Sc(1, TRUE, <<TRUE>>, 1, TRUE, 0, TRUE, TRUE), Sc(1, TRUE, <<FALSE>>, 1, FALSE, 0, TRUE, TRUE) }
+\* liveness: the manager is not stopped --------------------------------------
+ScLive1    == { Sc(1, TRUE, <<>>, 0, FALSE, 0, FALSE, FALSE) }
 ScLive     == { Sc(t, TRUE, <<>>, 0, FALSE, 0, FALSE, FALSE) : t \in {1, 2} }
 ScLivePerm == { Sc(1, TRUE, <<TRUE>>, 0, FALSE, 0, FALSE, FALSE) }
+\* behaviours replayed into the real manager (simulation mode) ----------------
+ReplayA    == { [Sc(1, TRUE, <<TRUE>>, 0, FALSE, 0, TRUE, TRUE) EXCEPT !.ru = 2000, !.cap = 7000] }
+ReplayB    == { [Sc(2, TRUE, <<FALSE>>, 1, TRUE, 1, TRUE, TRUE) EXCEPT !.ru = 2000, !.cap = 7000] }
+ReplayC    == { [Sc(1, FALSE, <<TRUE, FALSE>>, 0, FALSE, 0, TRUE, TRUE) EXCEPT !.ru = 2000, !.cap = 7000] }
 
-\* liveness: fairness of the manager's own steps and of the environment answering every Dial
+\* fairness: the manager's own steps (timers included) happen, every Dial and
+\* GetNewAddress is answered, and when the failure budget is used up the answer is success
 LiveSpec == Init /\ [][Next]_vars /\ WF_vars(Internal)
                  /\ WF_vars(\E r \in Objs : DialOk(r)) /\ WF_vars(\E r \in Objs : Gna(r, TRUE))
-\* (S2) convergence: eventually TargetOutbound connections are established and stay, unless the
-\* user canceled a pending automatic request (then one fewer is kept per cancel)
-S2Converge == <>[](Cardinality(conns) + NOps("disc") + NOps("rem") >= scn.target)
+
+\* automatic requests the user canceled while they were pending: nothing replaces them
+Unreplaced == {r \in Objs : rq[r].auto /\ rq[r].st = "canceled" /\ ~rq[r].rep}
+\* (S2) convergence: eventually TargetOutbound connections are established and stay
+S2Converge == <>[](Cardinality(conns) + Cardinality(Unreplaced) >= scn.target)
+\* (S3) a persistent request ends up established unless the user canceled / removed it
+S3PermHeld == <>[](\A r \in Objs : rq[r].perm => (rq[r].pc = "none" \/ rq[r].st \in {"established", "canceled", "disconnected"}))
 =============================================================================
